@@ -254,11 +254,15 @@ class _AdbPacketStore(object):
         :meth:`adb_shell.adb_device_async._AdbIOManagerAsync._read_packet_from_device` methods.  The second (inner)
         dictionary keys are the ``arg0`` return values from those methods.  And the values of this inner dictionary are
         queues of ``(cmd, data)`` tuples.
+    _live : set[tuple[int, int]]
+        The ``(arg0, arg1)`` pairs of streams that are known to be open because their owner has itself read one of their packets from
+        the device; a ``b'CLSE'`` packet for such a stream is stored even if no other packet of the stream was ever stored
 
     """
 
     def __init__(self):
         self._dict = {}
+        self._live = set()
 
     def __contains__(self, value):
         """Check if there are any entries in a queue for the specified value.
@@ -300,6 +304,8 @@ class _AdbPacketStore(object):
             The ``arg1`` return value from the :meth:`adb_shell.adb_device._AdbIOManager._read_packet_from_device` and :meth:`adb_shell.adb_device_async._AdbIOManagerAsync._read_packet_from_device` methods
 
         """
+        self._live.discard((arg0, arg1))
+
         if arg1 in self._dict and arg0 in self._dict[arg1]:
             del self._dict[arg1][arg0]
 
@@ -310,6 +316,20 @@ class _AdbPacketStore(object):
     def clear_all(self):
         """Clear all the entries."""
         self._dict = {}
+        self._live = set()
+
+    def mark_live(self, arg0, arg1):
+        """Record that the stream ``(arg0, arg1)`` is open, so that a ``b'CLSE'`` packet for it that is read by another stream's reader is kept.
+
+        Parameters
+        ----------
+        arg0 : int
+            The ``arg0`` return value from the :meth:`adb_shell.adb_device._AdbIOManager._read_packet_from_device` and :meth:`adb_shell.adb_device_async._AdbIOManagerAsync._read_packet_from_device` methods
+        arg1 : int
+            The ``arg1`` return value from the :meth:`adb_shell.adb_device._AdbIOManager._read_packet_from_device` and :meth:`adb_shell.adb_device_async._AdbIOManagerAsync._read_packet_from_device` methods
+
+        """
+        self._live.add((arg0, arg1))
 
     def find(self, arg0, arg1):
         """Find the entry corresponding to ``arg0`` and ``arg1``.
@@ -412,7 +432,7 @@ class _AdbPacketStore(object):
     def put(self, arg0, arg1, cmd, data):
         """Add an entry to the queue for ``arg0`` and ``arg1``.
 
-        Note that a new dictionary entry will not be created if ``cmd == constants.CLSE``.
+        Note that a new dictionary entry will not be created if ``cmd == constants.CLSE``, unless the stream was marked as live (see :meth:`_AdbPacketStore.mark_live`).
 
         Parameters
         ----------
@@ -428,13 +448,13 @@ class _AdbPacketStore(object):
         """
         if arg1 in self._dict:
             if arg0 not in self._dict[arg1]:
-                if cmd == constants.CLSE:
+                if cmd == constants.CLSE and (arg0, arg1) not in self._live:
                     return
 
                 # Create the `arg0` entry in the `arg1` dict
                 self._dict[arg1][arg0] = Queue()
         else:
-            if cmd == constants.CLSE:
+            if cmd == constants.CLSE and (arg0, arg1) not in self._live:
                 return
 
             # Create the `arg1` entry with a new dict
